@@ -1,17 +1,25 @@
 (* C05, composed: what one message / control message op does in the quiescent semantics, over the
    whole listener list, equals the reference routing of corr/Hub_preds.v (route_spec, step_C05).
 
-   For every state h with WF h, RI h (Hub_routing_inv.v; both hold in every reachable state) and an
-   empty bus queue, and o = OMsg c to tag / OCtl c to tag:
-     msg_outputs       the outputs of qstep h o are, in order, exactly one ToConn per addressed session
-                       that has a connection, carrying the sender block (sid, user) of the session of c
-                       and the rewritten recipient for a virtual target: the list the reference computes;
-     msg_step_C05      hence step_C05 (digest_of h) o (obs_of_outs outs) = true;
-     msg_not_to_sender / msg_same_backend / msg_queues / msg_tables_unchanged   items 2 - 4;
-   and the lift to histories (C05_every_history, P_hub 5 on the model's own trace).
-   The bus queue is empty after a message op (msg_bus_empty) but NOT after every op: drain has fuel
-   500 (bus_empty_after_qstep_refuted), and a history in which it was not empty breaks the property
-   (history_needs_empty_bus_refuted). *)
+   For every state h with WF h (Hub_wf.v), RI h (Hub_routing_inv.v; both hold in every reachable state)
+   and an empty bus queue, and o = op_of ctl c to tag (OMsg c to tag / OCtl c to tag):
+     route_core            do_message followed by the drain, for every recipient kind: outputs, queues, tables;
+     msg_outputs           the outputs of qstep h o are, in order, exactly one ToConn per addressed session
+                           that has a connection, carrying the sender block (sid, user) of the session of c
+                           and the rewritten recipient for a virtual target: the list the reference computes;
+     msg_step_C05          hence step_C05 (digest_of h) o (obs_of_outs outs) = true
+                           (all_msgs_obs_perm: what the harness records per connection is a permutation of
+                           what was written to connections; mset_eqb_perm: its multiset comparison);
+     msg_not_to_sender     nothing to c itself, except the copy for a virtual session of the sender;
+     msg_same_backend      nothing to a connection of a session of another backend;
+     msg_queues            addressed sessions without a connection get it appended (enqueue), nobody else;
+     msg_tables_unchanged  nothing else changes (erase_h; pq_tables), the bus queue is empty again;
+   and the lift to histories: C05_every_history (P_hub 5 on the model's own trace is None),
+   C05_every_step (all of the above at every message op of a history).
+   The bus queue is NOT empty after every quiescent step: drain has fuel 500
+   (bus_empty_after_qstep_refuted; qstep_bus_empty: it is when 500 deliveries suffice), and a history in
+   which a message op starts with a publication still queued breaks the property
+   (history_needs_empty_bus_refuted): the history theorems assume `quiet`. *)
 From Coq Require Import List NArith ZArith Bool Lia Permutation.
 From Verif Require Import model.Hub proofs.Hub_basics proofs.Hub_wf proofs.Hub_routing_inv.
 From Verif Require Import corr.Hub_preds proofs.Hub_refuted.
@@ -1017,6 +1025,14 @@ Proof.
   induction ops as [|o r IH]; intros h H; cbn [quiet quietb] in *; [exact I|].
   apply andb_prop in H as [H1 H2]. split; [|now apply IH].
   intros Hm. rewrite Hm in H1. cbn in H1. destruct (h_bus h); [reflexivity|discriminate].
+Qed.
+
+Lemma quiet_of_empty ops : forall h,
+  (forall pre post, ops = pre ++ post -> h_bus (qrun h pre) = []) -> quiet h ops.
+Proof.
+  induction ops as [|o r IH]; intros h H; cbn [quiet]; [exact I|]. split.
+  - intros _. exact (H [] (o :: r) eq_refl).
+  - apply IH. intros pre post E. apply (H (o :: pre) post). cbn [app]. now rewrite E.
 Qed.
 
 Theorem step_C05_model h o : WF h -> RI h -> (is_msg_op o = true -> h_bus h = []) ->
